@@ -15,7 +15,7 @@ type zzTable struct {
 // zzMakeTable: 1..NR rows of 1..NF fields; each field is 0..FL symbolic "plain" bytes
 // (printable ASCII other than the delimiter and the quote), rows end with LF or CRLF, the
 // last row may lack its newline. Structure is forked, content stays symbolic.
-func zzMakeTable(NR, NF, FL int, delim byte) *zzTable {
+func zzMakeTable(NR, NF, FL int, delim string) *zzTable {
 	t := &zzTable{}
 	n := 1 + zz.NondetChoice("nrows", NR)
 	for i := 0; i < n; i++ {
@@ -25,10 +25,10 @@ func zzMakeTable(NR, NF, FL int, delim byte) *zzTable {
 			f := zz.NondetBytes("field", FL)
 			for _, x := range f {
 				zz.Assume(zz.ByteRange(x, 0x21, 0x7E))
-				zz.Assume(!zz.ByteIn(x, string([]byte{delim, '"'})))
+				zz.Assume(!zz.ByteIn(x, delim+"\""))
 			}
 			if j > 0 {
-				t.input = append(t.input, delim)
+				t.input = append(t.input, delim...)
 			}
 			t.input = append(t.input, f...)
 			row = append(row, f)
@@ -69,7 +69,8 @@ func C06Csv2Lines() {
 	NR := zz.Param("NR", 3)
 	NF := zz.Param("NF", 2)
 	FL := zz.Param("FL", 1)
-	t := zzMakeTable(NR, NF, FL, '|')
+	delim := "|"
+	t := zzMakeTable(NR, NF, FL, delim)
 	rows := 1 + zz.NondetChoice("rows", 2)
 	var cols []*ColumnDecl
 	type colRef struct{ line, idx int }
@@ -81,7 +82,7 @@ func C06Csv2Lines() {
 		}
 	}
 	rec := &RecordDecl{Name: "r", Rows: zzIntPtr(rows), IsTarget: true, Columns: cols}
-	decl := &FileDecl{Delimiter: "|", Records: []*RecordDecl{rec}}
+	decl := &FileDecl{Delimiter: delim, Records: []*RecordDecl{rec}}
 	zz.Assume((&validateCtx{}).validateFileDecl(decl) == nil)
 	r := NewReader("t", &zzChunkReader{data: t.input, failAt: -1, cuts: zzCuts(zz.Param("CUTS", 1), len(t.input))}, decl, nil)
 	got := 0
@@ -125,7 +126,7 @@ func C06Csv2Lines() {
 func C05Csv2Units() {
 	NR := zz.Param("NR", 3)
 	FL := zz.Param("FL", 1)
-	t := zzMakeTable(NR, 1, FL, '|')
+	t := zzMakeTable(NR, 1, FL, "|")
 	var a *RecordDecl
 	hf := zz.NondetBool("headerFooter")
 	if hf {
@@ -140,9 +141,15 @@ func C05Csv2Units() {
 		Columns: []*ColumnDecl{{Name: "c", Index: zzIntPtr(1)}}}
 	c := &RecordDecl{Name: "C", Min: zzIntPtr(0),
 		Columns: []*ColumnDecl{{Name: "c", Index: zzIntPtr(1)}}}
-	tgt := zz.NondetChoice("target", 3)
+	// without the catch-all C a row that fits neither A nor B is unexpected data: a fatal error
+	catchAll := zz.NondetBool("catchAll")
+	recs := []*RecordDecl{a, b}
+	if catchAll {
+		recs = append(recs, c)
+	}
+	tgt := zz.NondetChoice("target", len(recs))
 	a.IsTarget, b.IsTarget, c.IsTarget = tgt == 0, tgt == 1, tgt == 2
-	decl := &FileDecl{Delimiter: "|", Records: []*RecordDecl{a, b, c}}
+	decl := &FileDecl{Delimiter: "|", Records: recs}
 	zz.Assume((&validateCtx{}).validateFileDecl(decl) == nil)
 	if zz.Param("FREEZE", 0) == 1 {
 		zz.Freeze(decl)
@@ -185,7 +192,12 @@ func C05Csv2Units() {
 		}
 		pos++
 	}
+	leftover := false
 	for pos < len(t.rows) {
+		if !catchAll {
+			leftover = true
+			break
+		}
 		if c.IsTarget {
 			want = append(want, string(t.rows[pos][0]))
 		}
@@ -196,7 +208,12 @@ func C05Csv2Units() {
 		n, err := r.Read()
 		if err != nil {
 			zz.Cover("terminal")
-			zz.Assert(err == io.EOF, "every row fits a declaration here: the stream ends with EOF")
+			if leftover {
+				zz.Cover("unexpected-data")
+				zz.Assert(err != io.EOF && IsErrInvalidCSV(err) && !r.IsContinuableError(err), "a row no declaration takes is a fatal error, not EOF and not continuable")
+			} else {
+				zz.Assert(err == io.EOF, "every row fits a declaration: the stream ends with EOF")
+			}
 			zz.Assert(got == len(want), "every target of the reference was delivered")
 			return
 		}
@@ -213,7 +230,7 @@ func C05Csv2Units() {
 // it (except possibly the last) equal the fault-free run.
 func C16Csv2() {
 	NR := zz.Param("NR", 2)
-	t := zzMakeTable(NR, 2, 1, '|')
+	t := zzMakeTable(NR, 2, 1, "|")
 	rows := 1 + zz.NondetChoice("rows", 2)
 	var cols []*ColumnDecl
 	for l := 0; l < rows; l++ {
@@ -338,4 +355,87 @@ func C06CsvQuoted() {
 		got, ok := zzColText(n, j)
 		zz.Assert(ok && got == string(vals[j]), "quoted field (embedded delimiters, quotes, newlines) comes back exactly")
 	}
+}
+
+
+// C06Csv2Delim: the delimiter is one character, not necessarily one byte: ASCII, a two-byte and
+// a three-byte character; every column still holds its own field.
+func C06Csv2Delim() {
+	delim := []string{"|", "\u00a6", "\u3001"}[zz.NondetChoice("delimiter", 3)]
+	t := zzMakeTable(2, 3, 1, delim)
+	cols := []*ColumnDecl{{Name: "a", Index: zzIntPtr(1)}, {Name: "b", Index: zzIntPtr(2)}, {Name: "c", Index: zzIntPtr(3)}}
+	decl := &FileDecl{Delimiter: delim, Records: []*RecordDecl{{Name: "r", IsTarget: true, Columns: cols}}}
+	zz.Assume((&validateCtx{}).validateFileDecl(decl) == nil)
+	r := NewReader("t", &zzChunkReader{data: t.input, failAt: -1}, decl, nil)
+	for i := 0; i < 4; i++ {
+		n, err := r.Read()
+		if err != nil {
+			zz.Cover("eof")
+			zz.Assert(err == io.EOF && i == len(t.rows), "one record per row, then EOF")
+			return
+		}
+		zz.Cover("record")
+		zz.Assert(i < len(t.rows), "one record per row")
+		if i < len(t.rows) {
+			for k := 0; k < 3; k++ {
+				want := ""
+				if k < len(t.rows[i]) {
+					want = string(t.rows[i][k])
+				}
+				text, ok := zzColText(n, k)
+				zz.Assert(ok && text == want, "column k holds field k of the row, whatever the delimiter's width")
+			}
+		}
+		r.Release(n)
+	}
+	zz.Fail("no terminal result within the read bound")
+}
+
+// C09Csv2Quotes: replace_double_quotes (every " in the input becomes ') does not depend on how
+// the source delivers the bytes: one Read, cut positions, and the last bytes arriving together
+// with io.EOF all give the same records.
+func C09Csv2Quotes() {
+	NR := zz.Param("NR", 2)
+	var input []byte
+	n := 1 + zz.NondetChoice("nrows", NR)
+	for i := 0; i < n; i++ {
+		f := zz.NondetBytesN("f", 2)
+		for _, x := range f {
+			zz.Assume(zz.ByteIn(x, "\"a'"))
+		}
+		input = append(input, f...)
+		input = append(input, '|', 'k')
+		if i < n-1 || zz.NondetBool("finalNewline") {
+			input = append(input, '\n')
+		}
+	}
+	mk := func(src *zzChunkReader) *reader {
+		decl := &FileDecl{Delimiter: "|", ReplaceDoubleQuotes: true, Records: []*RecordDecl{{Name: "r", IsTarget: true,
+			Columns: []*ColumnDecl{{Name: "a", Index: zzIntPtr(1)}, {Name: "b", Index: zzIntPtr(2)}}}}}
+		zz.Assume((&validateCtx{}).validateFileDecl(decl) == nil)
+		return NewReader("t", src, decl, nil)
+	}
+	one := mk(&zzChunkReader{data: input, failAt: -1})
+	cut := mk(&zzChunkReader{data: append([]byte{}, input...), failAt: -1, cuts: zzCuts(zz.Param("CUTS", 1), len(input)),
+		eofWithData: zz.NondetBool("eofWithData")})
+	for i := 0; i < NR+2; i++ {
+		n1, e1 := one.Read()
+		n2, e2 := cut.Read()
+		zz.Assert((e1 == nil) == (e2 == nil), "same kind of result whatever the delivery")
+		if e1 != nil || e2 != nil {
+			zz.Cover("terminal")
+			zz.Assert((e1 == io.EOF) == (e2 == io.EOF), "EOF under one delivery is EOF under every delivery")
+			return
+		}
+		zz.Cover("record")
+		a1, _ := zzColText(n1, 0)
+		a2, _ := zzColText(n2, 0)
+		zz.Assert(a1 == a2, "same record whatever the delivery")
+		for k := 0; k < len(a1); k++ {
+			zz.Assert(a1[k] != '"', "every double quote was replaced")
+		}
+		one.Release(n1)
+		cut.Release(n2)
+	}
+	zz.Fail("no terminal result within the read bound")
 }
